@@ -330,9 +330,26 @@ def onLastState (s : St) (p : Nat) (h : VH) (now : Nat) (boundary : Nat) (sample
 
 /-! ### `SendLastStateProof` -/
 
+/-- `check_if_response_is_matched`, the branch "no sampled header, and the last-N headers are not
+all blocks `[start, last)`" (`!has_all_blocks`); `f` is the first last-N header, `none` = accepted.
+When at most last-N blocks are missing (`last_number.saturating_sub(start_number) <= last_n_blocks`)
+all of them have to be there: 400.  Otherwise the server has dropped every requested difficulty:
+the last-N section has to be complete and no earlier block may reach the boundary (400), and no
+requested difficulty may lie before the section (451; the requested difficulties are increasing,
+the implementation looks at the first one). -/
+def checkNoSampled (lastN : Nat) (c : ReqContent) (f : VH) (lastNumber lastNCount : Nat) :
+    Option Nat :=
+  if ¬ lastN < lastNumber - c.startNumber then some 400
+  else if lastNCount ≠ lastN || c.boundary ≤ f.ptd then some 400
+  else match c.difficulties with
+    | d :: _ => if d ≤ f.ptd then some 451 else none
+    | [] => none
+
 /-- `check_if_response_is_matched`: `(reorg_count, sampled_count, last_n_count)` or a status
 code (400 malformed, 452 invalid reorg headers, 451 invalid samples).  The caller has checked that
-the total difficulty of every header fits into 256 bits. -/
+the total difficulty of every header fits into 256 bits.  (`last_last_n_header_number + 1` of the
+branch without sampled headers cannot overflow after the `checked_sub` test before it; the model
+evaluates it although the implementation's `&&` may skip it.) -/
 def checkMatched (lastN : Nat) (c : ReqContent) (headers : List VH) (last : VH) :
     M (Except Nat (Nat × Nat × Nat)) := do
   if headers.isEmpty then return .error 400
@@ -386,7 +403,10 @@ def checkMatched (lastN : Nat) (c : ReqContent) (headers : List VH) (last : VH) 
       match headers[reorg]?, headers.getLast? with
       | some f, some l =>
         let l1 ← addU64 65 l.number 1
-        if f.number ≠ c.startNumber || l1 ≠ last.number then return .error 400
+        -- `!has_all_blocks`: the last-N headers are not all blocks `[start, last)`
+        if f.number ≠ c.startNumber || l1 ≠ last.number then
+          if let some code := checkNoSampled lastN c f last.number lastNCount then
+            return .error code
       | _, _ => .error (.index 66)
     return .ok (reorg, sampled, lastNCount)
   else
